@@ -283,7 +283,7 @@ def temporals(d):
 def units_texts(d):
     if d in ODL_FAMILY:
         return st.sampled_from(["m", "KM", "m/s", "km**2", "m*s**-1", "DEGREES",
-                                "W/(m**2)", "pixel"])
+                                "W/(m**2)", "pixel", "m\ts", "km /\ts"])
     return st.sampled_from(["m", "KM", "m/s", "km**2", "deg C", "m s", "%", "1/s",
                             "a.b", "W / m**2", "it's", "#", "/*x*/", "=", "(", ";"])
 
